@@ -3,10 +3,12 @@ package exec
 import (
 	"context"
 	"encoding/json"
+	"strconv"
 
 	"github.com/cespare/xxhash/v2"
 
 	"verif/plan"
+	"verif/sim/cluster"
 )
 
 // HKey mirrors olric's default key hash: xxhash64(dmap name + key).
@@ -31,6 +33,8 @@ func (r *Run) doCtlExtra(sc *plan.Script, op *plan.Op, rec *plan.Rec) bool {
 	switch op.K {
 	case "ctl.snapshot":
 		rec.Snap = r.Snapshot(op.Flag)
+	case "ctl.get_all":
+		r.getAll(op, rec)
 	case "ctl.owner":
 		dmn := op.DM
 		if dmn == "" {
@@ -41,4 +45,113 @@ func (r *Run) doCtlExtra(sc *plan.Script, op *plan.Op, rec *plan.Rec) bool {
 		return false
 	}
 	return true
+}
+
+// resolveVictim turns a role-tagged failure op (Tag owner|backup|coord|any, Key) into a
+// concrete member index among the running members 0..n-2 (member n-1 is the reserved entry).
+func (r *Run) resolveVictim(op *plan.Op, rec *plan.Rec) bool {
+	switch op.Tag {
+	case "owner", "backup", "coord", "any":
+	default:
+		return true
+	}
+	run := r.C.Running()
+	reserved := r.P.Cluster.Members - 1
+	var cands []int
+	for _, m := range run {
+		if m.Idx != reserved {
+			cands = append(cands, m.Idx)
+		}
+	}
+	if len(cands) == 0 || len(run) <= 1 {
+		rec.Err = "skipped"
+		return false
+	}
+	isCand := func(i int) bool {
+		for _, c := range cands {
+			if c == i {
+				return true
+			}
+		}
+		return false
+	}
+	dmn := op.DM
+	if dmn == "" {
+		dmn = r.P.DMap
+	}
+	pick, role := -1, op.Tag
+	rt := run[0].DB.VerifLocalRouting()
+	route := rt[HKey(dmn, op.Key)%r.partitions()]
+	switch op.Tag {
+	case "owner":
+		if n := len(route.PrimaryOwners); n > 0 {
+			pick = clusterIdx(route.PrimaryOwners[n-1])
+		}
+	case "backup":
+		for _, b := range route.ReplicaOwners {
+			if i := clusterIdx(b); isCand(i) {
+				pick = i
+			}
+		}
+	case "coord":
+		if mem, err := run[0].EC.Members(context.Background()); err == nil {
+			for _, mm := range mem {
+				if mm.Coordinator {
+					pick = clusterIdx(mm.Name)
+				}
+			}
+		}
+	}
+	if !isCand(pick) {
+		pick = cands[int(r.K.Choice("victim", uint64(len(r.His)))%uint64(len(cands)))]
+		role = "any"
+	}
+	// what the victim is for the asserted key space: primary or backup of the hot key?
+	rel := ""
+	for _, o := range route.PrimaryOwners {
+		if clusterIdx(o) == pick {
+			rel = "role=owner"
+		}
+	}
+	for _, o := range route.ReplicaOwners {
+		if clusterIdx(o) == pick {
+			rel = "role=backup"
+		}
+	}
+	op.M = pick
+	rec.Op.M = pick
+	rec.Info = "victim=m" + itoa(pick) + " as=" + role + " " + rel
+	return true
+}
+
+func itoa(i int) string { return strconv.Itoa(i) }
+
+func clusterIdx(addr string) int { return cluster.IdxOfAddr(addr) }
+
+// getAll reads key through the embedded client of every running member.
+func (r *Run) getAll(op *plan.Op, rec *plan.Rec) {
+	dmn := op.DM
+	if dmn == "" {
+		dmn = r.P.DMap
+	}
+	for _, m := range r.C.Running() {
+		c := plan.Copy{Member: m.Idx, Kind: "get"}
+		dm, err := m.EC.NewDMap(dmn)
+		if err != nil {
+			c.Err = Classify(err)
+			rec.Copies = append(rec.Copies, c)
+			continue
+		}
+		g, err := dm.Get(context.Background(), op.Key)
+		switch cl := Classify(err); {
+		case err == nil:
+			var tmp plan.Rec
+			fillGet(&tmp, g)
+			c.Found, c.Val, c.TTL, c.TS = true, tmp.Val, tmp.TTL, tmp.TS
+		case cl == plan.ENotFound:
+		default:
+			c.Err = cl
+		}
+		rec.Copies = append(rec.Copies, c)
+	}
 }
